@@ -59,6 +59,8 @@ pub struct RigConfig {
     pub victim_enr_has_addr: bool,
     /// Non-default protocol id / version the node is configured with.
     pub protocol_identity: Option<discv5::ProtocolIdentity>,
+    /// `Some(d)`: the ban duration of the packet filter is set to `d` (default: one hour).
+    pub ban_duration: Option<Option<Duration>>,
 }
 
 impl Default for RigConfig {
@@ -74,6 +76,7 @@ impl Default for RigConfig {
             victim_seq: 1,
             victim_enr_has_addr: true,
             protocol_identity: None,
+            ban_duration: None,
         }
     }
 }
@@ -147,6 +150,9 @@ impl WireRig {
             .executor(Box::new(TokioExecutor));
         if let Some(pi) = cfg.protocol_identity {
             builder.protocol_identity(pi);
+        }
+        if let Some(d) = cfg.ban_duration {
+            builder.ban_duration(d);
         }
         if cfg.packet_filter {
             builder.enable_packet_filter();
